@@ -1,5 +1,5 @@
 """C05 Sid -> path -> Sid is the identity in every path configuration."""
-import posixpath
+import posixpath, json
 from harness.runner import PropBase, Case
 from harness import gen
 
@@ -107,7 +107,11 @@ class C05(PropBase):
                     if o[1][0] != ob[0]:
                         fails.append((c, o, 'Sid(path=sid.path(%r), config=%r) = %r differs from the Sid %r' % (c.meta['cfg'], c.meta['cfg'], o[1][0], ob[0])))
         # paths under two configurations differ only by the configured root
-        for uri, d in bysid.items():
+        # (configurations with the same value mappings: a configuration with other mappings differs by more, by design)
+        sig = {pc[0]: json.dumps(dict((k, vv) for k, vv in pc[1]).get('path_mapping'), sort_keys=True) for pc in ctx['rawd']['path_configs']}
+        for uri, d0 in bysid.items():
+          for sg in set(sig.get(cfg) for cfg in d0):
+            d = {cfg: p for cfg, p in d0.items() if sig.get(cfg) == sg}
             rel = set()
             for cfg, p in d.items():
                 r = roots.get(cfg, '')
